@@ -116,7 +116,11 @@ def run(ctx: Ctx) -> None:
         if not ok:
             continue
         want = eta / math.sqrt(depth) if depth else eta
-        mag_ok = torch.allclose(delta.abs(), torch.full_like(delta, want), rtol=1e-7, atol=0.0)
+        # float64: the step is a difference of two O(|y|) outputs, so its rounding error is ~eps sqrt(n) |y| (n-term dot products); anything beyond that
+        # (e.g. a scale factor rounded to float32, 1e-8 relative) is a real deviation from "exactly eta"
+        ymax = float(max(y0.detach().abs().max(), y1.abs().max(), 1.0))
+        n_terms = fi * k
+        mag_ok = bool(((delta.abs() - want).abs() <= 2e-9 * want + 16 * 2.2e-16 * math.sqrt(n_terms) * ymax).all())
         sign_ok = bool((torch.sign(delta) == -torch.sign(g)).all())
         if not (mag_ok and sign_ok):
             ctx.violation(f"C12:{kind}:move", "first Adam step does not move every output by eta/sqrt(depth) against the gradient sign",
@@ -142,5 +146,5 @@ def run(ctx: Ctx) -> None:
                 ctx.disagree("step_size", key, [s, l], got, THMS)
                 continue
             m = b2f(s["fwd"]) * (eta * b2f(l["scale"])) * n
-            if not rel_close(m, got, 1e-7):
+            if not rel_close(m, got, 1e-7):  # model computed in Float with its own rounding of sqrt
                 ctx.disagree("step_size", key, m, got, THMS)
